@@ -317,6 +317,14 @@ impl Mon {
                         format!("skip-fallback vote in slot {s} without SafeToSkip from own pool"),
                     ));
                 }
+                // the safe-to-skip condition can only hold at a node that notarized a block in the slot;
+                // a node whose initial vote was skip never casts skip-fallback on top of it
+                if own_notar.is_none() && !initial.is_empty() {
+                    out.push((
+                        "C05:skip-fallback-in-a-slot-the-node-did-not-notarize".to_string(),
+                        format!("skip-fallback vote in slot {s} although the node's initial vote there was skip (the safe-to-skip condition requires an own notar vote)"),
+                    ));
+                }
                 if has_final {
                     out.push((
                         "C05:skip-fallback-after-final".to_string(),
